@@ -255,8 +255,8 @@ def make_tasks(tier, seed):
   orders_exp = (1, 2, 3, 6, 18) if tier == 'quick' else (1, 2, 3, 4, 6, 9, 12, 18)
   k = 0
   for cfg in cfgs:
-    for kind, orders, cutoffs in (('exponential', orders_exp, (0, 0.3)), ('diffusion', (1, 2, 3), (0,)),
-                                  ('exponential_step', (1, 2, 18), (0, 0.4)), ('diffusion_step', (1, 2, 3), (0,))):
+    for kind, orders, cutoffs in (('exponential', orders_exp, (0, 0.3)), ('diffusion', (1, 2, 3, 4, 8, 13), (0,)),
+                                  ('exponential_step', (1, 2, 18), (0, 0.4)), ('diffusion_step', (1, 2, 3, 8, 13), (0,))):
       for o, c in itertools.product(orders, cutoffs):
         k += 1
         if tier == 'quick' and cfg is not cfgs[0] and k % 3:
